@@ -240,6 +240,12 @@ class OutputFiles:
             raise ValueError("Cannot write to two files when interleaved is True")
         if len(paths) == 1 and paths[0] == "-" and force_fasta:
             kwargs["fileformat"] = "fasta"
+        else:
+            # The writer gets file-like objects (proxied or possibly compressed),
+            # from which the format cannot be inferred reliably
+            fileformat = file_format_from_path(paths[0])
+            if fileformat is not None:
+                kwargs["fileformat"] = fileformat
         if paths == (None,):
             paths = ("-",)
         for path in paths:
@@ -292,6 +298,25 @@ class OutputFiles:
                 f.close()
         for bf in self._binary_files_to_close:
             bf.close()
+
+
+def file_format_from_path(path) -> Optional[str]:
+    """
+    Return "fasta" or "fastq" if the file name (before a compression
+    extension, if any) says so, otherwise None.
+    """
+    if path is None:
+        return None
+    name = str(path).lower()
+    for extension in (".gz", ".bz2", ".xz", ".zst"):
+        if name.endswith(extension):
+            name = name[: -len(extension)]
+            break
+    if name.endswith((".fasta", ".fa", ".fna")):
+        return "fasta"
+    if name.endswith((".fastq", ".fq")):
+        return "fastq"
+    return None
 
 
 class FileFormat(Enum):
